@@ -47,7 +47,7 @@ def strategy(tier, phase):
 
     from vlib import protogen
 
-    return st.fixed_dictionaries({"tape": protogen.tape_strategy(400 if tier == "quick" else 900), "entry": st.integers(0, 3),
+    return st.fixed_dictionaries({"gen": st.just(2), "tape": protogen.tape_strategy(400 if tier == "quick" else 900), "entry": st.integers(0, 3),
                                   "irv": st.sampled_from([0, 0, 10, 11, 13, 3, 8, 9])})
 
 
@@ -220,7 +220,7 @@ def execute(case):
         label = ENTRIES[entry] + "/corpus"
     else:
         try:
-            mp, features = protogen.build_model(case["tape"], case.get("irv") or None)
+            mp, features = protogen.build_model(case["tape"], case.get("irv") or None, case.get("gen", 1))
         except (KeyError, TypeError):
             return dict(failures=[], nontrivial=False, classes=["malformed"])
         entry = case.get("entry", 0) % 4
